@@ -593,208 +593,7 @@ def rule_read_target(rep: Report, repo: Repo) -> None:
               expected='a read that ends beyond 2^w is reported and skipped; ordinary reads go through')
 
 
-class _Opaque:
-    """a value the folding does not look into (the memory object, a message)"""
-    def __init__(self, what: str):
-        self.what = what
-
-
-class _Stop(Exception):
-    def __init__(self, value: Any):
-        self.value = value
-
-
-class _CantFold(Exception):
-    pass
-
-
-def _too_long(it: Any) -> bool:
-    try:
-        return len(it) > 4096
-    except OverflowError:
-        return True
-
-
-def _fold_fn(repo: Repo, rel: str, fn: ast.FunctionDef, args: List[Any], on_call: Any, depth: int = 0) -> Any:
-    """Fold a small straight-line / branching function on concrete arguments, reading only its syntax tree: names, tuples, integer
-    arithmetic, comparisons, subscripts, if / return, tuple unpacking, calls of module-level functions of the same file (folded the
-    same way), range / len / list comprehensions over a range. `on_call(dotted name, argument values)` sees every other call and may
-    answer it (anything but NotImplemented) - this is how the reads of the memory are collected. Unfoldable -> _CantFold."""
-    if depth > 6:
-        raise _CantFold('call depth')
-    env: Dict[str, Any] = {}
-    names = [a.arg for a in fn.args.args]
-    for n_, v_ in zip(names, args):
-        env[n_] = v_
-    mod_fns = {d.name: d for d in repo.mod(rel).body if isinstance(d, ast.FunctionDef)}
-
-    def ev(e: ast.expr, loc: Dict[str, Any]) -> Any:
-        if isinstance(e, ast.Constant):
-            return e.value
-        if isinstance(e, ast.Name):
-            if e.id in loc:
-                return loc[e.id]
-            raise _CantFold(f'name {e.id}')
-        if isinstance(e, ast.Attribute):
-            k = norm(e)
-            if k in loc:
-                return loc[k]
-            base = ev(e.value, loc)
-            if isinstance(base, dict) and e.attr in base:
-                return base[e.attr]
-            raise _CantFold(f'attribute {k}')
-        if isinstance(e, ast.Tuple) or isinstance(e, ast.List):
-            vals = [ev(x, loc) for x in e.elts]
-            return tuple(vals) if isinstance(e, ast.Tuple) else vals
-        if isinstance(e, ast.BinOp):
-            a, b = ev(e.left, loc), ev(e.right, loc)
-            if not (isinstance(a, int) and isinstance(b, int)):
-                raise _CantFold('non-integer arithmetic')
-            ops = {ast.Add: lambda: a + b, ast.Sub: lambda: a - b, ast.Mult: lambda: a * b, ast.FloorDiv: lambda: a // b, ast.Mod: lambda: a % b,
-                   ast.LShift: lambda: a << b if 0 <= b < 4096 else (_ for _ in ()).throw(_CantFold('shift')), ast.RShift: lambda: a >> b,
-                   ast.BitAnd: lambda: a & b, ast.BitOr: lambda: a | b, ast.BitXor: lambda: a ^ b}
-            if type(e.op) not in ops:
-                raise _CantFold('operator')
-            try:
-                return ops[type(e.op)]()
-            except (ArithmeticError, ValueError) as ex:
-                raise _CantFold(str(ex))
-        if isinstance(e, ast.UnaryOp):
-            v = ev(e.operand, loc)
-            if isinstance(e.op, ast.Not):
-                return not v
-            if isinstance(e.op, ast.USub) and isinstance(v, int):
-                return -v
-            raise _CantFold('unary')
-        if isinstance(e, ast.BoolOp):
-            r: Any = isinstance(e.op, ast.And)
-            for x in e.values:
-                r = ev(x, loc)
-                if bool(r) != isinstance(e.op, ast.And):
-                    return r
-            return r
-        if isinstance(e, ast.Compare):
-            left = ev(e.left, loc)
-            for op, c in zip(e.ops, e.comparators):
-                right = ev(c, loc)
-                if isinstance(op, (ast.Is, ast.IsNot)):
-                    ok = (left is right) == isinstance(op, ast.Is)
-                elif isinstance(left, _Opaque) or isinstance(right, _Opaque):
-                    raise _CantFold('opaque comparison')
-                else:
-                    try:
-                        ok = {ast.Eq: lambda: left == right, ast.NotEq: lambda: left != right, ast.Lt: lambda: left < right, ast.LtE: lambda: left <= right,
-                              ast.Gt: lambda: left > right, ast.GtE: lambda: left >= right, ast.In: lambda: left in right, ast.NotIn: lambda: left not in right}[type(op)]()
-                    except (TypeError, KeyError):
-                        raise _CantFold('comparison')
-                if not ok:
-                    return False
-                left = right
-            return True
-        if isinstance(e, ast.IfExp):
-            return ev(e.body if ev(e.test, loc) else e.orelse, loc)
-        if isinstance(e, ast.Subscript):
-            base = ev(e.value, loc)
-            if isinstance(e.slice, ast.Slice):
-                i = slice(*(None if x is None else ev(x, loc) for x in (e.slice.lower, e.slice.upper, e.slice.step)))
-            else:
-                i = ev(e.slice, loc)
-            try:
-                return base[i]
-            except (TypeError, KeyError, IndexError):
-                raise _CantFold('subscript')
-        if isinstance(e, ast.Dict):
-            return {ev(k, loc): ev(v, loc) for k, v in zip(e.keys, e.values) if k is not None}
-        if isinstance(e, ast.ListComp) and len(e.generators) == 1 and not e.generators[0].ifs and isinstance(e.generators[0].target, ast.Name):
-            it = ev(e.generators[0].iter, loc)
-            if not isinstance(it, (range, list, tuple)) or _too_long(it):
-                raise _CantFold('comprehension domain')
-            return [ev(e.elt, {**loc, e.generators[0].target.id: x}) for x in it]
-        if isinstance(e, ast.JoinedStr):
-            return _Opaque('text')
-        if isinstance(e, ast.Call):
-            d = dotted(e.func)
-            vals = [ev(a, loc) for a in e.args]
-            kws = {k.arg: ev(k.value, loc) for k in e.keywords if k.arg}
-            if isinstance(e.func, ast.Attribute) and e.func.attr == 'bit_length' and not vals:
-                recv = ev(e.func.value, loc)
-                if isinstance(recv, int):
-                    return recv.bit_length()
-            if d == 'range' and all(isinstance(v, int) for v in vals) and not kws:
-                return range(*vals)
-            if d == 'len' and len(vals) == 1 and isinstance(vals[0], (list, tuple, range)):
-                if _too_long(vals[0]):
-                    raise _CantFold('length of a huge domain')
-                return len(vals[0])
-            if d in ('int', 'bool') and len(vals) == 1 and isinstance(vals[0], (int, bool)):
-                return int(vals[0]) if d == 'int' else bool(vals[0])
-            got = on_call(d, vals, kws)
-            if got is not NotImplemented:
-                return got
-            if d in mod_fns and not kws:
-                return _fold_fn(repo, rel, mod_fns[d], vals, on_call, depth + 1)
-            return _Opaque(d)
-        raise _CantFold(type(e).__name__)
-
-    def bind(t: ast.expr, v: Any) -> None:
-        if isinstance(t, ast.Name):
-            env[t.id] = v
-        elif isinstance(t, (ast.Tuple, ast.List)):
-            if isinstance(v, _Opaque):
-                for x in t.elts:
-                    bind(x, _Opaque(v.what))
-                return
-            if not isinstance(v, (tuple, list)) or len(v) != len(t.elts):
-                raise _CantFold('unpacking')
-            for x, y in zip(t.elts, v):
-                bind(x, y)
-        else:
-            raise _CantFold('assignment target')
-
-    def run(stmts: List[ast.stmt]) -> None:
-        for st in stmts:
-            if isinstance(st, ast.Assign):
-                v = ev(st.value, env)
-                for t in st.targets:
-                    bind(t, v)
-            elif isinstance(st, ast.AnnAssign):
-                if st.value is not None:
-                    bind(st.target, ev(st.value, env))
-            elif isinstance(st, ast.AugAssign) and isinstance(st.target, ast.Name):
-                bind(st.target, ev(ast.BinOp(left=ast.Name(id=st.target.id, ctx=ast.Load()), op=st.op, right=st.value), env))
-            elif isinstance(st, ast.If):
-                run(st.body if ev(st.test, env) else st.orelse)
-            elif isinstance(st, ast.Return):
-                raise _Stop(None if st.value is None else ev(st.value, env))
-            elif isinstance(st, ast.Expr):
-                if not isinstance(st.value, ast.Constant):
-                    ev(st.value, env)
-            elif isinstance(st, ast.Try):
-                run(st.body)
-            elif isinstance(st, ast.For) and not st.orelse:
-                try:
-                    it = ev(st.iter, env)
-                    if not isinstance(it, (range, list, tuple)) or _too_long(it):
-                        raise _CantFold('loop domain')
-                    for x in it:
-                        bind(st.target, x)
-                        run(st.body)
-                except _CantFold:
-                    # a loop that only computes a value the rule does not look at: what it assigns is unknown from here on
-                    if any(isinstance(c, ast.Call) for b in st.body for c in ast.walk(b) if isinstance(c, ast.Call) and dotted(c.func).endswith('.get_word')):
-                        raise
-                    for n in ast.walk(st):
-                        if isinstance(n, ast.Name) and isinstance(n.ctx, ast.Store):
-                            env[n.id] = _Opaque(n.id)
-            elif isinstance(st, ast.Pass):
-                continue
-            else:
-                raise _CantFold(type(st).__name__)
-    try:
-        run(fn.body)
-    except _Stop as s_:
-        return s_.value
-    return None
+from ..pyfold import Opaque as _Opaque, CantFold as _CantFold, fold_fn as _fold_fn      # noqa: E402
 
 
 def rule_read_span(rep: Report, repo: Repo) -> None:
@@ -988,7 +787,7 @@ def check(rep: Report, repo: Optional[Repo] = None) -> None:
 
 
 MANIFEST = dict(
-    technique='typestate (pause before fetch), command-table agreement, effect analysis and exception-escape / integer-formatting analysis of the debugger call closure',
+    technique='typestate (pause before fetch), command-table agreement, effect analysis and exception-escape / integer-formatting analysis of the debugger call closure; syntax-tree folding of the read command on concrete cases (addresses fetched)',
     level_text='Static, structural: the pause test precedes the flip fetch on every path of the featured loop; produced and handled '
                'debugger commands coincide with the documented next-break arithmetic; the debugger closure performs no program-state '
                'write, no device call, and only fault-guarded memory reads; variable decoding uses the stride/offset shared with the '
